@@ -61,12 +61,12 @@ Proof.
   repeat split; auto. now apply Nat.leb_le.
 Qed.
 
-Lemma attempts_lc c n w (Hc : full_user tbl n = Some c) :
+Lemma retry_loop_lc sr swt wi c n w (Hc : full_user tbl n = Some c) :
   forall k i s p last s' ar,
     i + k = fst (retry_of c) ->
     (i = 0 -> cancelled s = false) ->
     (0 < i -> exists e, last = inr e) ->
-    attempts o c n w k i s p last = (s', ar) ->
+    retry_loop o sr swt wi c n w k i s p last = (s', ar) ->
     exists evs st',
       log s' = log s ++ evs /\
       lrun tbl (mon_at c n p i last (cancelled s)) (cancelled s) evs = Some (st', cancelled s') /\
@@ -77,7 +77,7 @@ Lemma attempts_lc c n w (Hc : full_user tbl n = Some c) :
       end.
 Proof.
   pose proof (full_parts _ (full_user_full _ _ Hc)) as [_ [Hexec [_ HN1]]].
-  induction k as [|k IH]; intros i s p last s' ar HN Hi0 Hlast H; cbn [attempts] in H.
+  induction k as [|k IH]; intros i s p last s' ar HN Hi0 Hlast H; cbn [retry_loop] in H.
   - (* budget used up: i = N >= 1 *)
     inv H. exists [], (mon_at c n p i last (cancelled s')).
     split; [now rewrite app_nil_r|]. split; [reflexivity|].
@@ -105,7 +105,7 @@ Proof.
          (let '(s2, r) := node_exec o c n s1 p in
           match r with
           | inl x => (s2, ARes (inl x))
-          | inr e => attempts o c n w k (S i) s2 p (inr e)
+          | inr e => retry_loop o sr swt wi c n w k (S i) s2 p (inr e)
           end) = (s', ar) ->
          exists evs st',
            log s' = log s1 ++ evs /\
@@ -134,18 +134,34 @@ Proof.
           + rewrite L2, L, <- app_assoc. reflexivity.
           + cbn [lrun]. rewrite Hstep. cbn [mon_at] in R2. cbn. rewrite <- C. exact R2. }
       destruct (Nat.ltb 0 i && Nat.ltb 0 w).
-      * destruct (emit o s (CWait n 0 i)) as [sw rw] eqn:Ew.
+      * destruct (emit o s (CWait n wi i)) as [sw rw] eqn:Ew.
         apply emit_spec in Ew. destruct Ew as [cnw [_ [Lw Cw]]]. rewrite Hcanc in Cw. cbn in Cw.
         destruct (cancelled sw) eqn:Hsw.
         -- injection H as Hs Ha; subst s' ar. subst cnw. eexists _, _. split; [exact Lw|]. split.
            ++ cbn [lrun lstep]. cbn. now rewrite Hsw.
            ++ split; reflexivity.
         -- subst cnw. destruct (Body sw Hsw H) as [evs [st' [L2 [R2 F2]]]].
-           exists ((CWait n 0 i, rw, false) :: evs), st'. split; [|split; [|exact F2]].
+           exists ((CWait n wi i, rw, false) :: evs), st'. split; [|split; [|exact F2]].
            ++ rewrite L2, Lw, <- app_assoc. reflexivity.
            ++ cbn [lrun lstep]. cbn. exact R2.
       * apply (Body s Hcanc H).
 Qed.
+
+Lemma attempts_lc c n w (Hc : full_user tbl n = Some c) :
+  forall k i s p last s' ar,
+    i + k = fst (retry_of c) ->
+    (i = 0 -> cancelled s = false) ->
+    (0 < i -> exists e, last = inr e) ->
+    attempts o c n w k i s p last = (s', ar) ->
+    exists evs st',
+      log s' = log s ++ evs /\
+      lrun tbl (mon_at c n p i last (cancelled s)) (cancelled s) evs = Some (st', cancelled s') /\
+      match ar with
+      | AAbort e => st' = LDead ECtx /\ class_of e = KCtx
+      | ARes (inl x) => st' = LExecd n p x
+      | ARes (inr e) => st' = match u_fb c with FbUser => LFb n p e | _ => LDead e end
+      end.
+Proof. unfold attempts. apply retry_loop_lc. exact Hc. Qed.
 
 (* ------------------------------------------------------------ one visit *)
 Definition LC (s s' : ms) (oc : outcome) : Prop :=
